@@ -13,7 +13,7 @@ EXTENDS BvLane
 IntOpsC01 == {"add", "sub", "mul", "neg", "abs", "min", "max", "fmin", "fmax", "incr", "decr", "incr_if", "decr_if",
               "fma", "fms", "fnma", "fnms", "divmod", "sign", "sadd", "ssub", "avg", "avgr", "clip",
               "op+", "op-", "op*", "op/%", "op-u",
-              "op+=", "op-=", "op*=", "op/%=", "op++", "op--", "op++post", "op--post", "op++old", "op--old", "op+u"}
+              "op+=", "op-=", "op*=", "op/%=", "op++", "op--", "op++post", "op--post", "op++old", "op--old", "op+u", "land", "lor"}
 IntOpsC07 == {"and", "or", "xor", "not", "andnot", "op&", "op|", "op^", "op~", "shl", "shr", "rotl", "rotr",
               "shlv", "shrv", "rotlv", "rotrv", "op<<", "op>>", "op<<v", "op>>v",
               "op&=", "op|=", "op^=", "op<<=", "op>>=", "op<<=v", "op>>=v"}
@@ -58,6 +58,9 @@ IntRel0(op, S, x, y, z, m, imm, r) ==
     [] op = "fnms"    -> r = VFnms(x, y, z)
     [] op = "sign"    -> r = VSign(S, x)
     [] op = "clip"    -> VLe(S, y, z) => r = (IF VLt(S, x, y) THEN y ELSE IF VLt(S, z, x) THEN z ELSE x)     \* clip(x, lo, hi), lo <= hi
+    \* batch && batch, batch || batch (beyond the listed properties): the C++ truth value of the lanes as 0 / 1 of the element type
+    [] op = "land"    -> r = (IF ~IsZero(x) /\ ~IsZero(y) THEN VIncr(VSub(x, x)) ELSE VSub(x, x))
+    [] op = "lor"     -> r = (IF ~IsZero(x) \/ ~IsZero(y) THEN VIncr(VSub(x, x)) ELSE VSub(x, x))
     [] op = "sadd"    -> r = VSadd(S, x, y)
     [] op = "ssub"    -> r = VSsub(S, x, y)
     [] op = "avg"     -> r = VAvg(S, x, y)
